@@ -217,7 +217,9 @@ class KeplerNum(NumericalPropagator):
             # by extrapolation or retropolation
 
             # Step size for initial extrapolation or retropolation
-            _step = sign((start - orb.date).total_seconds()) * self.step
+            # (start - orb.date) rounds to zero below the microsecond, whereas
+            # start != orb.date : use the comparison to get the direction
+            _step = self.step if start > orb.date else -self.step
 
             ephem = [orb]
 
